@@ -188,9 +188,15 @@ func (e editor) node(from *Selection, to *Selection, m meta.HasDataDefinitions, 
 	toRequest.New = false
 	toRequest.Selection = to
 
-	toChild, err := to.selekt(&toRequest)
+	toChild, hidden, err := to.selektOrHidden(&toRequest)
 	if err != nil {
 		return err
+	}
+	if hidden {
+		// the node is there but its 'when' is false: it is not edited, like the items of a list
+		// that are hidden (it used to be taken for absent, made anew and then refused, which
+		// left it empty)
+		return nil
 	}
 	if toChild != nil {
 		defer toChild.Release()
